@@ -193,9 +193,13 @@ class Workspace:
             os.unlink(base + ".raw.ll")
             os.unlink(base + ".spec.ll")
         else:
-            cmd = [CLANG] + flags + [u["optlevel"] if shape == "ship" else shape, "-g",
-                                     "-fno-discard-value-names", "-S", "-emit-llvm",
-                                     u["file"], "-o", ll, "-w"]
+            # "shipinl": the shipped optimisation level with the inliner allowed to flatten every static helper -
+            # same semantics, one function per entry point (the lane analysis is intraprocedural)
+            opt = [u["optlevel"]] if shape in ("ship", "shipinl") else [shape]
+            if shape == "shipinl":
+                opt += ["-mllvm", "-inline-threshold=100000", "-mllvm", "-inlinehint-threshold=100000"]
+            cmd = [CLANG] + flags + opt + ["-g", "-fno-discard-value-names", "-S", "-emit-llvm",
+                                           u["file"], "-o", ll, "-w"]
             p = subprocess.run(cmd, capture_output=True, text=True)
             if p.returncode != 0:
                 return (u["unit"], None, p.stderr)
